@@ -590,6 +590,45 @@ def check_roundtrip(case, ctx):
             ctx.check(same_state(snapshot(fs4), expected),
                       "roundtrip/second-generation-differs",
                       lambda: diff_state(snapshot(fs4), expected))
+            # entries that were saved already change IN PLACE (as get_info /
+            # FileInfo.update do), then the cache is saved and loaded again
+            muts = case.get("mutations") or []
+            if entries and muts:
+                from typhon.files import FileInfo
+                model = entries_to_model(entries)
+                for m in muts:
+                    path = entries[m["index"] % len(entries)]["path"]
+                    info = fs.info_cache[path]
+                    t0, t1, attr = model[path]
+                    ctx.label("mutate-" + m["how"])
+                    if m["how"] == "update":
+                        new = [m["t"] if m["which"] in (0, 2) else None,
+                               m["t"] if m["which"] in (1, 2) else None]
+                        info.update(FileInfo(path, new, {"upd": m["value"]}))
+                        t0 = new[0] if new[0] is not None else t0
+                        t1 = new[1] if new[1] is not None else t1
+                        attr = dict(attr, upd=m["value"])
+                    elif m["how"] == "item":
+                        info.times[m["which"] % 2] = m["t"]
+                        if m["which"] % 2 == 0:
+                            t0 = m["t"]
+                        else:
+                            t1 = m["t"]
+                    else:
+                        info.attr["upd"] = m["value"]
+                        attr = dict(attr, upd=m["value"])
+                    model[path] = (t0, t1, attr)
+                expected2 = model_snapshot(model)
+                ctx.check(same_state(snapshot(fs), expected2),
+                          "roundtrip/in-place-change-lost-in-memory",
+                          lambda: diff_state(snapshot(fs), expected2))
+                fs.save_cache(cache)
+                fs6 = FileSet(template_in(root))
+                fs6.load_cache(cache)
+                ctx.check(same_state(snapshot(fs6), expected2),
+                          "roundtrip/stale-after-in-place-change", lambda: (
+                              "saved, changed in place %r, saved again: %s"
+                              % (muts, diff_state(snapshot(fs6), expected2))))
     finally:
         real_shutil.rmtree(root, ignore_errors=True)
 
@@ -621,6 +660,11 @@ def label_content(ctx, entries):
     if any(ord(c) > 127 or ord(c) < 32 or c in '"\\'
            for e in entries for c in e["path"]):
         ctx.label("path-unicode-or-escapes")
+    if any(0xD800 <= ord(c) <= 0xDFFF for e in entries
+           for txt in [e["path"]] + [k for k in e["attr"]] + [
+               v for v in e["attr"].values() if isinstance(v, str)]
+           for c in txt):
+        ctx.label("lone-surrogate")
 
 
 # --------------------------------------------------------------------------
@@ -997,8 +1041,11 @@ def build_document(case):
         if layout == "compact":
             return json.dumps(doc, separators=(",", ":")).encode()
         if layout == "indent":
-            return (json.dumps(doc, indent=2, ensure_ascii=False)
-                    + "\n").encode("utf-8")
+            try:
+                return (json.dumps(doc, indent=2, ensure_ascii=False)
+                        + "\n").encode("utf-8")
+            except UnicodeEncodeError:      # lone surrogates: escapes only
+                return (json.dumps(doc, indent=2) + "\n").encode()
         return json.dumps(doc).encode()
 
     if kind == "none":
@@ -1707,11 +1754,16 @@ def times():
             lambda t: t.replace(microsecond=0)))
 
 
+# "\udce9" etc. are what os.fsdecode makes of file names that are not valid
+# UTF-8 (b"caf\xe9" -> "caf\udce9"): lone surrogates in paths and attributes
+SURROGATES = st.text("abc/.\udce9\udcff\udc80", min_size=1, max_size=8)
 PATH_TEXT = st.one_of(
     st.text("abc/._- 01", min_size=0, max_size=12),
+    SURROGATES,
     st.text("abc/._- 01äö雪λ\"\\\n\t{}[]*", max_size=12),
     st.text(max_size=10))
-ATTR_TEXT = st.one_of(st.text("abAB01-_ ", max_size=6), st.text(max_size=6))
+ATTR_TEXT = st.one_of(st.text("abAB01-_ ", max_size=6), st.text(max_size=6),
+                      SURROGATES)
 # the replay format of vp.runner tags datetimes etc. as {"__dt__": ...}; a
 # generated one-key dict with such a key would be read back as that type
 ATTR_KEY = ATTR_TEXT.filter(
@@ -1761,6 +1813,12 @@ def roundtrip_cases():
         "cache_name": st.sampled_from(["cache.json", "cache", "c ä.json",
                                        ".cache.json"]),
         "saves": st.sampled_from([1, 1, 2]),
+        "mutations": st.lists(st.fixed_dictionaries({
+            "index": st.integers(0, 40),
+            "how": st.sampled_from(["update", "item", "attr"]),
+            "which": st.integers(0, 2),
+            "t": times(),
+            "value": ATTR_TEXT}), max_size=3),
     })
 
 
